@@ -33,6 +33,8 @@ type pairCtx struct {
 	calls       map[string]*pairCall
 	pname       string // receiver parameter name in the equiv expressions
 	forceInline map[*ssa.Function]bool
+	cross       *CrossSpec
+	fnB         *ssa.Function
 	light       bool // use only frames and determinism of callees (no requires/ensures), and only the byte-dependent preconditions
 }
 
@@ -498,7 +500,8 @@ func TestReplay(t *testing.T) {
 		if err != nil {
 			continue
 		}
-		variants := [][]byte{raw, []byte(strings.ReplaceAll(string(raw), "\n", "\r")), []byte(strings.ReplaceAll(string(raw), " ", "\t"))}
+		variants := [][]byte{raw, []byte(strings.ReplaceAll(string(raw), "\n", "\r")), []byte(strings.ReplaceAll(string(raw), " ", "\t")),
+			[]byte(strings.ReplaceAll(string(raw), "\n", " #\n")), []byte(strings.ReplaceAll(string(raw), "\n", " ##\n")), []byte(strings.ReplaceAll(string(raw), "\n", " # x\r"))}
 		for vi, doc := range variants {
 			s := NewJApiScanner(fs.NewFile(p, doc))
 			var cur stepFunc = s.step
@@ -572,7 +575,7 @@ func (e *Engine) BuildCrossVC(fnA, fnB *ssa.Function, es *EquivSpec, cs *CrossSp
 	if len(es.Params) > 1 {
 		cname = es.Params[1]
 	}
-	pc := &pairCtx{es: es, calls: map[string]*pairCall{}, pname: es.Params[0], light: true, forceInline: map[*ssa.Function]bool{fnB: true}}
+	pc := &pairCtx{es: es, calls: map[string]*pairCall{}, pname: es.Params[0], light: true, forceInline: map[*ssa.Function]bool{fnB: true}, cross: cs, fnB: fnB}
 	vc.pair = pc
 	st := &state{reach: "true", regs: map[*ssa.Alloc]string{}, heap: map[string]string{}, ep: vc.newEpoch()}
 	st.alloc = vc.declare("alloc0", "Int")
@@ -677,4 +680,17 @@ func (e *Engine) BuildCrossVC(fnA, fnB *ssa.Function, es *EquivSpec, cs *CrossSp
 		vc.oblige("like", es.Srcs[i], okBoth, vc.eqVals(ta[i], tb[i]), cs.Tags, "")
 	}
 	return vc
+}
+
+
+// crossReplaySource: differential test for a cross-function lemma: at every dispatch of state A on a byte satisfying the
+// condition, A is run on one copy of the reached scanner and B (made the current state) on another; outcomes must agree.
+func crossReplaySource(stateA, stateB, cond string) string {
+	src := pairReplaySource(stateA, "0", "0")
+	src = strings.Replace(src, "if diff == \"\" && (c == A || c == B) && reflect.ValueOf(cur).Pointer() == target {", "if diff == \"\" && ("+cond+") && reflect.ValueOf(cur).Pointer() == target {", 1)
+	src = strings.Replace(src, "oa := zzOutcome(zzClone(s, at, A), cur, A)", "oa := zzOutcome(zzClone(s, at, c), cur, c)", 1)
+	src = strings.Replace(src, "ob := zzOutcome(zzClone(s, at, B), cur, B)", "sb := zzClone(s, at, c)\n\t\t\t\t\tsb.step = "+stateB+"\n\t\t\t\t\tob := zzOutcome(sb, "+stateB+", c)", 1)
+	src = strings.Replace(src, "treats byte %d and byte %d differently: document %s (variant %d) index %d: %q vs %q\", A, B, p, vi, at, oa, ob)", "and state "+stateB+" treat byte %d differently: document %s (variant %d) index %d: %q vs %q\", c, p, vi, at, oa, ob)", 1)
+	src = strings.Replace(src, "const A, B = byte(0), byte(0)", "", 1)
+	return src
 }
